@@ -58,6 +58,7 @@ func c10Graph(c *c10Case) *gen.Graph {
 			b.Intr = intr
 			b.Events = []gen.EventDef{{Type: "signal", Ref: fmt.Sprintf("s%d", i+1)}}
 			tx := g.Add(gen.Task, fmt.Sprintf("tx%d", i+1), "W")
+			tx.Writes = []string{fmt.Sprintf("xw%d", i+1)}
 			ex := g.Add(gen.End, fmt.Sprintf("endx%d", i+1), "W")
 			g.Connect(b, tx, nil)
 			g.Connect(tx, ex, nil)
@@ -89,6 +90,7 @@ func c10Graph(c *c10Case) *gen.Graph {
 		b.Intr = intr
 		b.Events = []gen.EventDef{{Type: "signal", Ref: fmt.Sprintf("s%d", i+1)}}
 		tx := g.Add(gen.Task, fmt.Sprintf("tx%d", i+1), "")
+		tx.Writes = []string{fmt.Sprintf("xw%d", i+1)} // the exception flow stores results like any other
 		ex := g.Add(gen.End, fmt.Sprintf("endx%d", i+1), "")
 		g.Connect(b, tx, nil)
 		g.Connect(tx, ex, nil)
@@ -490,6 +492,20 @@ func c10Run(c *c10Case, env *fw.Env, v *fw.V) {
 		}
 		if r == nil {
 			break
+		}
+		if strings.HasPrefix(r.Act, "tx") {
+			// a task on the exception flow answered with its declared result
+			w := "xw" + r.Act[2:]
+			in.Answer(r, bpmn.DoWithResults(map[string]any{w: 7}))
+			if !quiet("while finishing") {
+				return
+			}
+			if got, ok := in.Vars()[w]; !ok || fmt.Sprint(got) != "7" {
+				v.Violate("exception-flow-result-lost", hostCls, "task %s on the exception flow was answered with %s=7; the variable reads %v (present %v)", r.Act, w, got, ok)
+				fail()
+				return
+			}
+			continue
 		}
 		in.Answer(r, bpmn.DoWithResults(nil))
 		if !quiet("while finishing") {
